@@ -6,6 +6,7 @@ import Verif.Props.C08
 import Verif.Proofs.C09Json
 import Verif.Proofs.C09XmlMain
 import Verif.Proofs.C09SvgMain
+import Verif.Proofs.C09Css
 /-!
 # C09 — accepted input yields syntactically valid output that is accepted again
 
@@ -165,5 +166,59 @@ theorem xml_svg_attr_wellformed : type_of% @Verif.Proofs.C09Xml.svg_attr_wellfor
 /-- `EscapeAttrVal` does not repair a sub-minifier result with a bare `&` or `<` (K-C09-Xml-3 on the real code) -/
 theorem xml_svg_attr_contract_needed : type_of% @Verif.Proofs.C09Xml.svg_attr_contract_needed :=
   @Verif.Proofs.C09Xml.svg_attr_contract_needed
+/-! ## Css -/
+
+/-- **CSS, declaration writer**: for all admissible values (`valsOk`: every lexeme a closed token of its type for the
+    independent tokeniser, function arguments pairwise safe), every `!important` flag and every context starting
+    with a stop code point, the independent CSS Syntax 3 tokeniser reads the bytes `writeDeclaration` writes as
+    exactly the tokens it was given: nothing merges, nothing splits (guard `sepOk` = known findings K-C09-CSS-1/2) -/
+theorem css_writer_retokenises : type_of% @Verif.Proofs.C09Css.css_writer_retokenises :=
+  @Verif.Proofs.C09Css.css_writer_retokenises
+
+/-- **CSS**: without the guard on neighbours inside functions the statement is false (`f(` `red` `10%` `)` is written
+    `f(red10%)`) -/
+theorem css_writer_retokenises_counterexample : type_of% @Verif.Proofs.C09Css.css_writer_retokenises_counterexample :=
+  @Verif.Proofs.C09Css.css_writer_retokenises_counterexample
+
+/-- **CSS, raw path**: for all admissible component lists (`rawOk`) the bytes `writeRaw` writes (values with brackets,
+    `a=b`, `!ie`, …; `/` and `*` kept apart) are read as exactly the components -/
+theorem css_raw_retokenises : type_of% @Verif.Proofs.C09Css.css_raw_retokenises :=
+  @Verif.Proofs.C09Css.css_raw_retokenises
+
+/-- **CSS, raw path**: without the guard on neighbours it is false: `<` `!` `--x` is written `<!--x` (K-C09-CSS-3) -/
+theorem css_raw_retokenises_counterexample : type_of% @Verif.Proofs.C09Css.css_raw_retokenises_counterexample :=
+  @Verif.Proofs.C09Css.css_raw_retokenises_counterexample
+
+/-- **CSS, declaration minifier of the model**: whenever `minifyDeclaration` is defined, not on the raw path and chose
+    admissible values, the bytes it writes read back as those values -/
+theorem css_declaration_retokenises : type_of% @Verif.Proofs.C09Css.css_declaration_retokenises :=
+  @Verif.Proofs.C09Css.css_declaration_retokenises
+
+/-- **CSS, declaration minifier of the model, raw path** -/
+theorem css_declaration_retokenises_raw : type_of% @Verif.Proofs.C09Css.css_declaration_retokenises_raw :=
+  @Verif.Proofs.C09Css.css_declaration_retokenises_raw
+
+/-- **CSS, second pass**: every token the independent tokeniser reads in a written declaration is again a closed
+    token of its type, none a bad-string or bad-url: the lexer contract holds again for the second pass -/
+theorem css_second_pass_tokens : type_of% @Verif.Proofs.C09Css.css_second_pass_tokens :=
+  @Verif.Proofs.C09Css.css_second_pass_tokens
+
+/-- **CSS, block structure**: a written value followed by `;` or `}` is read as bracket-balanced tokens without
+    bad-string/bad-url, then exactly the terminator: it neither swallows its terminator nor opens or closes a block -/
+theorem css_declaration_closed : type_of% @Verif.Proofs.C09Css.css_declaration_closed :=
+  @Verif.Proofs.C09Css.css_declaration_closed
+
+/-- **CSS, urls**: whatever passes the unquoting test of `minifyTokens` is, between `url(` and `)`, one closed url token
+    with exactly that value -/
+theorem css_url_closed : type_of% @Verif.Proofs.C09Css.css_url_closed := @Verif.Proofs.C09Css.css_url_closed
+
+/-- **CSS, strings**: without `\`+newline in it a closed string is left alone by `removeMarkupNewlines` -/
+theorem css_string_closed_partial : type_of% @Verif.Proofs.C09Css.css_string_closed_partial :=
+  @Verif.Proofs.C09Css.css_string_closed_partial
+
+/-- **CSS, strings**: in general `removeMarkupNewlines` changes the value: `"\31\<LF>2"` (`12`) becomes `"\312"`
+    (K-C09-CSS-11) -/
+theorem css_string_closed_counterexample : type_of% @Verif.Proofs.C09Css.css_string_closed_counterexample :=
+  @Verif.Proofs.C09Css.css_string_closed_counterexample
 
 end Verif.Props.C09
